@@ -217,6 +217,24 @@ EXTRA7 = {
     "C19": "Requests naming ids at and beyond the edges of the type table.",
 }
 
+EXTRA8 = {
+    "C01": "A subscriber that misses 1-30 messages in a row is served again afterwards.",
+    "C03": "SUBSCRIBE before CONNECT from a connection that connects and is gone at once.",
+    "C04": "Leading-zero constants; three-digit ids; files accepted through the command line entry point.",
+    "C05": "Streams of connections refused at CONNECT; close() arriving before each of the first twelve sends of a round.",
+    "C06": "Connections accepted in one order and identified in another.",
+    "C07": "Two loggers found dead by the copy of one acknowledgement.",
+    "C08": "Legacy (@msg_def) definitions at right and wrong sizes; undecodable payloads of more than a megabyte.",
+    "C09": "Buffer carriers (array.array, ctypes arrays, memoryviews) for byte arrays; array elements arriving through from_dict / from_json.",
+    "C10": "A field written in place between two conversions.",
+    "C12": "Copy-form messages in the id clash matrix and the range cases.",
+    "C13": "%YAML directives in sibling files; fields named like the compiler's padding.",
+    "C15": "Punctuation in string constants; shared definitions imported from a sibling directory.",
+    "C16": "Every closure compiled right after a refused compilation, by relative paths; user metadata in two files.",
+    "C17": "One formatter object handed every sequence of three small batches and single batches of sizes up to 8192 (thorough 16384).",
+    "C19": "Every kind of refused connection request: no acknowledgement, no copy.",
+}
+
 ALL = [f"C{i:02d}" for i in range(1, 20)]
 NOT_YET = "check not built yet in this round (planned; see DESIGN.md section 4)"
 
@@ -234,7 +252,7 @@ def main():
             "evidence_file": f"/verif/evidence/{pid}.json",
             "replay_cmd_template": "./vcheck replay {path}",
             "engine": c["engine"],
-            "level_claimed": {"category": c["level"], "text": (c["text"] + " " + EXTRA.get(pid, "") + " " + EXTRA2.get(pid, "") + " " + EXTRA3.get(pid, "") + " " + EXTRA4.get(pid, "") + " " + EXTRA5.get(pid, "") + " " + EXTRA6.get(pid, "") + " " + EXTRA7.get(pid, "")).strip(), "design_ref": c["ref"]},
+            "level_claimed": {"category": c["level"], "text": (c["text"] + " " + EXTRA.get(pid, "") + " " + EXTRA2.get(pid, "") + " " + EXTRA3.get(pid, "") + " " + EXTRA4.get(pid, "") + " " + EXTRA5.get(pid, "") + " " + EXTRA6.get(pid, "") + " " + EXTRA7.get(pid, "") + " " + EXTRA8.get(pid, "")).strip(), "design_ref": c["ref"]},
             "level_note": c["note"],
             "technique": c["technique"],
         })
